@@ -502,6 +502,483 @@ fn noise_probe(a: &mut Args) -> String {
 	format!("{} {} {}", fwd.0, fwd.1, fwd.2)
 }
 
+/// peer_framing_probe <nfrag> <frag>* <nmsgs> <len>*
+/// For every fragment size given: two real PeerManagers (public API only) connected through in-memory sockets. Every byte either side writes -
+/// handshake acts, Init, and then <nmsgs> custom messages (type 32769, payload of the given lengths, byte value =
+/// message index) queued by the initiator - is handed to the other side's `read_event` in fragments of <frag> bytes
+/// (0 = whole writes). Output: `<fragment sizes for which the responder's handler received exactly the messages sent, in
+/// order, and nobody disconnected> <fragment sizes tried>`.
+fn peer_framing_probe(a: &mut Args) -> String {
+	let nf = a.usize();
+	let frags: Vec<usize> = (0..nf).map(|_| a.usize()).collect();
+	let n = a.usize();
+	let lens: Vec<usize> = (0..n).map(|_| a.usize()).collect();
+	let good = frags.iter().filter(|f| {
+		let (got, same, closed) = framing_run(**f, &lens, None);
+		got == lens.len() && same && !closed
+	}).count();
+	format!("{} {}", good, frags.len())
+}
+
+/// init_first_probe <mode>: a real PeerManager (responder) and a bare initiator (hook RawInitiator) complete the
+/// handshake; the initiator then sends, mode 0: a custom message without having sent Init; 1: Init, then the custom
+/// message; 2: Init twice. Output: `<custom messages the responder's handler received> <1 if the responder dropped the
+/// connection>`.
+fn init_first_probe(a: &mut Args) -> String {
+	let mode = a.u8();
+	let (got, _, closed) = framing_run(0, &[], Some(mode));
+	format!("{} {}", got, closed as u8)
+}
+
+fn framing_run(frag: usize, lens: &[usize], raw_mode: Option<u8>) -> (usize, bool, bool) {
+	use bitcoin::secp256k1::PublicKey;
+	use lightning::ln::msgs::{DecodeError, Init, LightningError};
+	use lightning::ln::peer_handler::{CustomMessageHandler, ErroringMessageHandler, IgnoringMessageHandler, MessageHandler, PeerManager, SocketDescriptor};
+	use lightning::ln::wire::{CustomMessageReader, Type};
+	use lightning::sign::{KeysManager, NodeSigner, Recipient};
+	use lightning::types::features::{InitFeatures, NodeFeatures};
+	use lightning::util::ser::{LengthLimitedRead, Writeable, Writer};
+	use std::sync::atomic::{AtomicBool, Ordering};
+	use std::sync::{Arc, Mutex};
+
+	#[derive(Debug, Clone, PartialEq)]
+	struct Blob(Vec<u8>);
+	impl Type for Blob {
+		fn type_id(&self) -> u16 {
+			32769
+		}
+	}
+	impl Writeable for Blob {
+		fn write<W: Writer>(&self, w: &mut W) -> Result<(), lightning::io::Error> {
+			w.write_all(&self.0)
+		}
+	}
+	struct Handler {
+		to_send: Mutex<Vec<(PublicKey, Blob)>>,
+		received: Mutex<Vec<Blob>>,
+	}
+	impl CustomMessageReader for Handler {
+		type CustomMessage = Blob;
+		fn read<R: LengthLimitedRead>(&self, ty: u16, r: &mut R) -> Result<Option<Blob>, DecodeError> {
+			if ty != 32769 {
+				return Ok(None);
+			}
+			let mut v = Vec::new();
+			let mut buf = [0u8; 256];
+			loop {
+				match r.read(&mut buf) {
+					Ok(0) => break,
+					Ok(n) => v.extend_from_slice(&buf[..n]),
+					Err(_) => return Err(DecodeError::ShortRead),
+				}
+			}
+			Ok(Some(Blob(v)))
+		}
+	}
+	impl CustomMessageHandler for Handler {
+		fn handle_custom_message(&self, msg: Blob, _from: PublicKey) -> Result<(), LightningError> {
+			self.received.lock().unwrap().push(msg);
+			Ok(())
+		}
+		fn get_and_clear_pending_msg(&self) -> Vec<(PublicKey, Blob)> {
+			core::mem::take(&mut *self.to_send.lock().unwrap())
+		}
+		fn peer_disconnected(&self, _: PublicKey) {}
+		fn peer_connected(&self, _: PublicKey, _: &Init, _: bool) -> Result<(), ()> {
+			Ok(())
+		}
+		fn provided_node_features(&self) -> NodeFeatures {
+			NodeFeatures::empty()
+		}
+		fn provided_init_features(&self, _: PublicKey) -> InitFeatures {
+			InitFeatures::empty()
+		}
+	}
+	#[derive(Clone)]
+	struct Sock {
+		id: u8,
+		out: Arc<Mutex<Vec<u8>>>,
+		closed: Arc<AtomicBool>,
+	}
+	impl PartialEq for Sock {
+		fn eq(&self, o: &Self) -> bool {
+			self.id == o.id
+		}
+	}
+	impl Eq for Sock {}
+	impl std::hash::Hash for Sock {
+		fn hash<H: std::hash::Hasher>(&self, h: &mut H) {
+			self.id.hash(h)
+		}
+	}
+	impl SocketDescriptor for Sock {
+		fn send_data(&mut self, data: &[u8], _continue_read: bool) -> usize {
+			self.out.lock().unwrap().extend_from_slice(data);
+			data.len()
+		}
+		fn disconnect_socket(&mut self) {
+			self.closed.store(true, Ordering::SeqCst);
+		}
+	}
+	let keys = [Arc::new(KeysManager::new(&[11; 32], 42, 42, true)), Arc::new(KeysManager::new(&[12; 32], 42, 42, true))];
+	let ids: Vec<PublicKey> = keys.iter().map(|k| k.get_node_id(Recipient::Node).unwrap()).collect();
+	let handlers = [
+		Arc::new(Handler { to_send: Mutex::new(Vec::new()), received: Mutex::new(Vec::new()) }),
+		Arc::new(Handler { to_send: Mutex::new(Vec::new()), received: Mutex::new(Vec::new()) }),
+	];
+	let chan = [Arc::new(ErroringMessageHandler::new()), Arc::new(ErroringMessageHandler::new())];
+	let ign = Arc::new(IgnoringMessageHandler {});
+	let mk = |i: usize| {
+		PeerManager::new(
+			MessageHandler {
+				chan_handler: chan[i].clone(),
+				route_handler: ign.clone(),
+				onion_message_handler: ign.clone(),
+				custom_message_handler: handlers[i].clone(),
+				send_only_message_handler: ign.clone(),
+			},
+			42,
+			&[40 + i as u8; 32],
+			Arc::new(NoLog),
+			keys[i].clone(),
+		)
+	};
+	let pm = [mk(0), mk(1)];
+	let socks = [
+		Sock { id: 0, out: Arc::new(Mutex::new(Vec::new())), closed: Arc::new(AtomicBool::new(false)) },
+		Sock { id: 1, out: Arc::new(Mutex::new(Vec::new())), closed: Arc::new(AtomicBool::new(false)) },
+	];
+	let mut failed = false;
+	if let Some(mode) = raw_mode {
+		use lightning::ln::noise_verif_hooks::RawInitiator;
+		use lightning::util::ser::Writeable as _;
+		pm[1].new_inbound_connection(socks[1].clone(), None).expect("inbound");
+		let (mut raw, act1) = RawInitiator::new(ids[1]);
+		let mut d = socks[1].clone();
+		failed |= pm[1].read_event(&mut d, &act1).is_err();
+		pm[1].process_events();
+		let act2 = core::mem::take(&mut *socks[1].out.lock().unwrap());
+		let act3 = raw.act_three(&act2[..50], &keys[0]);
+		failed |= pm[1].read_event(&mut d, &act3).is_err();
+		pm[1].process_events();
+		let mut init = 16u16.to_be_bytes().to_vec();
+		init.extend_from_slice(&lightning::ln::msgs::Init { features: InitFeatures::empty(), networks: None, remote_network_address: None }.encode());
+		let custom = vec![0x80u8, 0x01, 7, 7, 7];
+		let seq: Vec<Vec<u8>> = match mode {
+			0 => vec![custom],
+			1 => vec![init, custom],
+			_ => vec![init.clone(), init],
+		};
+		for m in seq {
+			if failed || socks[1].closed.load(Ordering::SeqCst) {
+				break;
+			}
+			let wire = raw.encrypt(&m);
+			failed |= pm[1].read_event(&mut d, &wire).is_err();
+			pm[1].process_events();
+		}
+		let got = handlers[1].received.lock().unwrap().len();
+		return (got, true, failed || socks[1].closed.load(Ordering::SeqCst));
+	}
+	let act1 = pm[0].new_outbound_connection(ids[1], socks[0].clone(), None).expect("outbound");
+	pm[1].new_inbound_connection(socks[1].clone(), None).expect("inbound");
+	socks[0].out.lock().unwrap().extend_from_slice(&act1);
+	let sent: Vec<Blob> = lens.iter().enumerate().map(|(i, l)| Blob(vec![i as u8 + 1; *l])).collect();
+	for round in 0..40 {
+		if round == 6 {
+			*handlers[0].to_send.lock().unwrap() = sent.iter().map(|b| (ids[1], b.clone())).collect();
+		}
+		let mut moved = false;
+		for from in 0..2usize {
+			let to = 1 - from;
+			let bytes = core::mem::take(&mut *socks[from].out.lock().unwrap());
+			if bytes.is_empty() {
+				continue;
+			}
+			moved = true;
+			let step = if frag == 0 { bytes.len() } else { frag };
+			for piece in bytes.chunks(step) {
+				if socks[to].closed.load(Ordering::SeqCst) || failed {
+					break;
+				}
+				let mut d = socks[to].clone();
+				if pm[to].read_event(&mut d, piece).is_err() {
+					failed = true;
+				}
+			}
+			pm[to].process_events();
+		}
+		pm[0].process_events();
+		pm[1].process_events();
+		if !moved && round > 6 {
+			break;
+		}
+	}
+	let got = handlers[1].received.lock().unwrap().clone();
+	let closed = failed || socks[0].closed.load(Ordering::SeqCst) || socks[1].closed.load(Ordering::SeqCst);
+	(got.len(), got == sent, closed)
+}
+
+/// spv_probe <a> <b> <lie_kind> <lie_at> <fail_at> <header_only>
+/// The real SpvClient (lightning-block-sync, public API: SpvClient::new / poll_best_tip over a ChainPoller) against a
+/// synthetic regtest-difficulty block tree: a trunk of 4 blocks (heights 0..3), an old branch of <a> blocks on top of
+/// it that the listener is on, and a new branch of <b> blocks on top of the trunk that the block source reports as best.
+/// The source can misbehave: <lie_kind> 1 serves the header of block <lie_at> of the new branch (0 = its tip) with its
+/// height raised by one, 2 with its chain work raised, 3 with height u32::MAX, 4 serves another block's header in its
+/// place; <fail_at> n makes the n-th request to the source fail (0: none). <header_only> 1: blocks are served as headers.
+/// Two polls are made. The listener's notifications are replayed on the chain it started from. Output:
+/// `<first poll ok> <listener's final height> <mask>`; mask bits: 1 the notifications do not describe one valid chain
+/// (a disconnection to a block the listener is not on, a connected block that does not extend the listener's tip, a wrong
+/// height), 2 the listener ended on a tip with less accumulated work than it started from, 4 a block of the new branch
+/// at or above a misreported header was connected, 8 with an honest, reliable source and a heavier new branch the
+/// listener did not end at the new tip, 16 with a lighter or equal new branch the listener was moved.
+fn spv_probe(a: &mut Args) -> String {
+	let (na, nb, lie_kind, lie_at, fail_at, header_only) = (a.usize(), a.usize(), a.u8(), a.usize(), a.usize(), a.bool());
+	let (ok, height, mask) = spv_run(na, nb, lie_kind, lie_at, fail_at, header_only);
+	format!("{} {} {}", ok as u8, height, mask)
+}
+
+/// spv_battery <max_a> <max_b>: spv_probe for every old branch of 0..=max_a blocks, new branch of 0..=max_b blocks, full and
+/// header-only blocks, and every behaviour of the source: honest; each kind of misreported header (1-4) at each block of
+/// the new branch; a failure injected at each of the first 14 requests. Output: `<scenarios whose mask is non-zero or
+/// that panicked> <scenarios run> <the first bad one as a b lie_kind lie_at fail_at header_only, or zeros>`.
+fn spv_battery(a: &mut Args) -> String {
+	let (max_a, max_b) = (a.usize(), a.usize());
+	let (mut bad, mut total) = (0usize, 0usize);
+	let mut first = String::from("0 0 0 0 0 0");
+	for na in 0..=max_a {
+		for nb in 0..=max_b {
+			for header_only in [false, true] {
+				let mut behaviours = vec![(0u8, 0usize, 0usize)];
+				for k in 1..=4u8 {
+					for at in 0..nb {
+						behaviours.push((k, at, 0));
+					}
+				}
+				for f in 1..=14usize {
+					behaviours.push((0, 0, f));
+				}
+				for (k, at, f) in behaviours {
+					total += 1;
+					let r = catch_unwind(AssertUnwindSafe(|| spv_run(na, nb, k, at, f, header_only)));
+					let is_bad = match r {
+						Ok((_, _, mask)) => mask != 0,
+						Err(_) => true,
+					};
+					if is_bad {
+						if bad == 0 {
+							first = format!("{} {} {} {} {} {}", na, nb, k, at, f, header_only as u8);
+						}
+						bad += 1;
+					}
+				}
+			}
+		}
+	}
+	format!("{} {} {}", bad, total, first)
+}
+
+fn spv_run(na: usize, nb: usize, lie_kind: u8, lie_at: usize, fail_at: usize, header_only: bool) -> (bool, u32, u32) {
+	use bitcoin::block::{Block, Header, Version};
+	use bitcoin::hash_types::{BlockHash, TxMerkleNode};
+	use bitcoin::{Network, Transaction};
+	use lightning::chain::{BlockLocator, Listen};
+	use lightning_block_sync::poll::{ChainPoller, Validate};
+	use lightning_block_sync::{BlockData, BlockHeaderData, BlockSource, BlockSourceError, BlockSourceResult, HeaderCache, SpvClient};
+	use std::future::Future;
+	use std::sync::Mutex;
+	fn mine(prev: &Block, tweak: u32) -> Block {
+		let coinbase = Transaction { version: bitcoin::transaction::Version(0), lock_time: bitcoin::absolute::LockTime::ZERO, input: vec![], output: vec![] };
+		let merkle_root = TxMerkleNode::from_raw_hash(coinbase.compute_txid().to_raw_hash());
+		Block {
+			header: Header {
+				version: Version::NO_SOFT_FORK_SIGNALLING,
+				prev_blockhash: prev.block_hash(),
+				merkle_root,
+				time: prev.header.time + 1,
+				bits: bitcoin::Target::from_be_bytes([0xff; 32]).to_compact_lossy(),
+				nonce: tweak,
+			},
+			txdata: vec![coinbase],
+		}
+	}
+	// (block, height, parent index)
+	let mut tree: Vec<(Block, u32, usize)> = vec![(bitcoin::constants::genesis_block(Network::Regtest), 0, 0)];
+	for h in 1..4u32 {
+		let b = mine(&tree[h as usize - 1].0, 0);
+		tree.push((b, h, h as usize - 1));
+	}
+	let mut tip_a = 3usize;
+	for i in 0..na {
+		let b = mine(&tree[tip_a].0, 1);
+		tree.push((b, 4 + i as u32, tip_a));
+		tip_a = tree.len() - 1;
+	}
+	let mut tip_b = 3usize;
+	let mut branch_b = Vec::new();
+	for i in 0..nb {
+		let b = mine(&tree[tip_b].0, 2);
+		tree.push((b, 4 + i as u32, tip_b));
+		tip_b = tree.len() - 1;
+		branch_b.push(tip_b);
+	}
+	let work_of = |idx: usize| {
+		let mut path = vec![idx];
+		while *path.last().unwrap() != 0 {
+			let p = tree[*path.last().unwrap()].2;
+			path.push(p);
+		}
+		let mut w = tree[0].0.header.work();
+		for i in path.iter().rev().skip(1) {
+			w = w + tree[*i].0.header.work();
+		}
+		w
+	};
+	let lying = if lie_kind != 0 && nb > 0 { Some(branch_b[nb - 1 - lie_at.min(nb - 1)]) } else { None };
+	struct Source<'t> {
+		tree: &'t Vec<(Block, u32, usize)>,
+		works: Vec<bitcoin::Work>,
+		best: usize,
+		lying: Option<usize>,
+		lie_kind: u8,
+		fail_at: usize,
+		header_only: bool,
+		requests: Mutex<usize>,
+	}
+	impl<'t> Source<'t> {
+		fn tick(&self) -> BlockSourceResult<()> {
+			let mut n = self.requests.lock().unwrap();
+			*n += 1;
+			if *n == self.fail_at {
+				Err(BlockSourceError::transient("injected failure"))
+			} else {
+				Ok(())
+			}
+		}
+		fn find(&self, h: &BlockHash) -> Option<usize> {
+			self.tree.iter().position(|(b, _, _)| b.block_hash() == *h)
+		}
+	}
+	impl<'t> BlockSource for Source<'t> {
+		fn get_header<'a>(&'a self, hash: &'a BlockHash, _hint: Option<u32>) -> impl Future<Output = BlockSourceResult<BlockHeaderData>> + Send + 'a {
+			async move {
+				self.tick()?;
+				let i = self.find(hash).ok_or_else(|| BlockSourceError::persistent("unknown block"))?;
+				let mut d = BlockHeaderData { header: self.tree[i].0.header, height: self.tree[i].1, chainwork: self.works[i] };
+				if self.lying == Some(i) {
+					match self.lie_kind {
+						1 => d.height += 1,
+						2 => d.chainwork = d.chainwork + self.tree[0].0.header.work(),
+						3 => d.height = u32::MAX,
+						_ => d.header = self.tree[(i + 1) % self.tree.len()].0.header,
+					}
+				}
+				Ok(d)
+			}
+		}
+		fn get_block<'a>(&'a self, hash: &'a BlockHash) -> impl Future<Output = BlockSourceResult<BlockData>> + Send + 'a {
+			async move {
+				self.tick()?;
+				let i = self.find(hash).ok_or_else(|| BlockSourceError::persistent("unknown block"))?;
+				Ok(if self.header_only { BlockData::HeaderOnly(self.tree[i].0.header) } else { BlockData::FullBlock(self.tree[i].0.clone()) })
+			}
+		}
+		fn get_best_block<'a>(&'a self) -> impl Future<Output = BlockSourceResult<(BlockHash, Option<u32>)>> + Send + 'a {
+			async move {
+				self.tick()?;
+				Ok((self.tree[self.best].0.block_hash(), Some(self.tree[self.best].1)))
+			}
+		}
+	}
+	enum Note {
+		Connected(Header, u32),
+		Disconnected(BlockHash, u32),
+	}
+	struct Recorder(Mutex<Vec<Note>>);
+	impl Listen for Recorder {
+		fn filtered_block_connected(&self, header: &Header, _txdata: &lightning::chain::transaction::TransactionData, height: u32) {
+			self.0.lock().unwrap().push(Note::Connected(*header, height));
+		}
+		fn blocks_disconnected(&self, fork_point: BlockLocator) {
+			self.0.lock().unwrap().push(Note::Disconnected(fork_point.block_hash, fork_point.height));
+		}
+	}
+	fn block_on<F: Future>(f: F) -> F::Output {
+		use std::task::{Context, Poll, RawWaker, RawWakerVTable, Waker};
+		fn clone(_: *const ()) -> RawWaker {
+			RawWaker::new(core::ptr::null(), &VTABLE)
+		}
+		fn noop(_: *const ()) {}
+		static VTABLE: RawWakerVTable = RawWakerVTable::new(clone, noop, noop, noop);
+		let waker = unsafe { Waker::from_raw(RawWaker::new(core::ptr::null(), &VTABLE)) };
+		let mut cx = Context::from_waker(&waker);
+		let mut f = Box::pin(f);
+		loop {
+			if let Poll::Ready(v) = f.as_mut().poll(&mut cx) {
+				return v;
+			}
+		}
+	}
+	let works: Vec<bitcoin::Work> = (0..tree.len()).map(|i| work_of(i)).collect();
+	let source = Source { tree: &tree, works: works.clone(), best: tip_b, lying, lie_kind, fail_at, header_only, requests: Mutex::new(0) };
+	let start = BlockHeaderData { header: tree[tip_a].0.header, height: tree[tip_a].1, chainwork: works[tip_a] }.validate(tree[tip_a].0.block_hash()).expect("valid start");
+	let recorder = Recorder(Mutex::new(Vec::new()));
+	let poller = ChainPoller::new(&source, Network::Regtest);
+	let mut client = SpvClient::new(start, poller, HeaderCache::new(), &recorder);
+	let first = block_on(client.poll_best_tip());
+	let _second = block_on(client.poll_best_tip());
+	// replay the notifications on the chain the listener started from
+	let mut chain: Vec<usize> = Vec::new();
+	let mut i = tip_a;
+	loop {
+		chain.push(i);
+		if i == 0 {
+			break;
+		}
+		i = tree[i].2;
+	}
+	chain.reverse();
+	let mut mask = 0u32;
+	for note in recorder.0.lock().unwrap().iter() {
+		match note {
+			Note::Disconnected(hash, height) => {
+				match chain.iter().position(|i| tree[*i].0.block_hash() == *hash) {
+					Some(p) if tree[chain[p]].1 == *height => chain.truncate(p + 1),
+					_ => mask |= 1,
+				}
+			},
+			Note::Connected(header, height) => {
+				let tip = *chain.last().unwrap();
+				let idx = tree.iter().position(|(b, _, _)| b.header == *header);
+				match idx {
+					Some(idx) if header.prev_blockhash == tree[tip].0.block_hash() && *height == tree[tip].1 + 1 && tree[idx].1 == *height => {
+						if let Some(l) = lying {
+							// idx is the misreported block or a descendant of it on the new branch
+							if branch_b.contains(&idx) && tree[idx].1 >= tree[l].1 {
+								mask |= 4;
+							}
+						}
+						chain.push(idx);
+					},
+					_ => mask |= 1,
+				}
+			},
+		}
+	}
+	let end = *chain.last().unwrap();
+	if works[end] < works[tip_a] {
+		mask |= 2;
+	}
+	let heavier = works[tip_b] > works[tip_a];
+	if heavier && lie_kind == 0 && fail_at == 0 && end != tip_b {
+		mask |= 8;
+	}
+	if !heavier && end != tip_a {
+		mask |= 16;
+	}
+	(first.is_ok(), tree[end].1, mask)
+}
+
 /// node_announcement_addr_probe <addr_len> <avail> (<kind> <hostname_len>)*: decodes (real
 /// `UnsignedNodeAnnouncement::read_from_fixed_length_buffer`) the byte string
 ///   flen=0 | timestamp | node_id | rgb | alias | addr_len | descriptors... zero padding
@@ -805,6 +1282,10 @@ fn dispatch(name: &str, a: &mut Args) -> String {
 		"route_mpp_overpay_probe" => route_mpp_overpay_probe(a),
 		"route_validity_probe" => route_validity_probe(a),
 		"noise_probe" => noise_probe(a),
+		"peer_framing_probe" => peer_framing_probe(a),
+		"init_first_probe" => init_first_probe(a),
+		"spv_probe" => spv_probe(a),
+		"spv_battery" => spv_battery(a),
 		"channel_config_roundtrip" => {
 			// <prop> <base> <cltv delta> <force close fee> <accept underpaying> <dust kind 0 fixed / 1 multiplier> <dust value>
 			use lightning::util::config::{ChannelConfig, MaxDustHTLCExposure};
